@@ -85,26 +85,60 @@ func init() {
 		if fd := x.funcDecl(dir, "GrpcProxyInterceptor", "Stream"); fd != nil {
 			w := newC16Walk(x, dir)
 			w.root(fd)
-			var flow, req, parse []string
-			handlerCalls := 0
+			var flow, req, parse, order, fields []string
+			handlerCalls, tlsStores, reqLits := 0, 0, 0
+			handlerUnder := []string{}
 			for _, e := range w.evs {
 				switch {
 				case e.kind == "call" && strings.HasSuffix(e.callee, ".Lookup"):
 					flow = append(flow, "call "+e.text)
+					order = append(order, "lookup")
 				case e.kind == "call" && e.callee == "p3":
 					handlerCalls++
 					flow = append(flow, e.withGuards("call p3"))
+					if e.inClosure {
+						order = append(order, "handler-in-closure")
+					} else {
+						order = append(order, "handler")
+					}
+					handlerUnder = append([]string(nil), e.guards...)
+				case (e.kind == "go" || e.kind == "defer") && (e.callee == "p3" || strings.Contains(e.text, "p3(")):
+					order = append(order, e.kind+"-handler")
 				case e.kind == "ret" && e.depth == 0 && strings.HasPrefix(e.text, "status.Error"):
 					flow = append(flow, e.line())
+					if m := c16statusCode.FindStringSubmatch(e.text); m != nil {
+						order = append(order, "status:"+m[1])
+					} else {
+						order = append(order, "status:?")
+					}
 				case e.kind == "lit" && strings.HasPrefix(e.text, "lit http.Request"):
 					// Host and URL decide the routing; how the header map is filled does not
 					req = append(req, c16headerVal.ReplaceAllString(e.text, "Header=_"))
+					if reqLits == 0 && e.node != nil {
+						// the first request literal is the one handed to the table lookup
+						for _, el := range e.node.Elts {
+							if kv, ok := el.(*ast.KeyValueExpr); ok {
+								fields = append(fields, x.src(kv.Key))
+							} else {
+								fields = append(fields, "<positional>")
+							}
+						}
+					}
+					reqLits++
 				case e.kind == "call" && (e.callee == "url.ParseRequestURI" || e.callee == "metadata.FromIncomingContext"):
 					parse = append(parse, "call "+e.text)
 				case e.kind == "store" && strings.Contains(e.text, ".TLS"):
 					req = append(req, "store "+e.text)
+					tlsStores++
 				}
 			}
+			sort.Strings(fields)
+			// the order of the interceptor's effects: table lookup, own status returns, the handler call
+			x.defStrList("streamOrder", order)
+			// the conditions the handler call is guarded by (negations of the early returns before it)
+			x.defStrList("streamHandlerGuards", handlerUnder)
+			x.defStrList("lookupRequestFields", fields)
+			x.defNat("lookupRequestTLSStores", uint64(tlsStores))
 			x.defStrList("streamFlow", flow)
 			x.defNat("streamHandlerCalls", uint64(handlerCalls))
 			x.defStrList("lookupRequest", req)
@@ -166,6 +200,19 @@ func init() {
 			w.root(fd)
 			x.defStrList("poolCleanup", w.lines(poolEvent))
 		}
+		{
+			unlocked, writesUnderR, scopeKinds, accessors := c16locks(x, dir)
+			if unlocked == nil {
+				unlocked = []string{}
+			}
+			if writesUnderR == nil {
+				writesUnderR = []string{}
+			}
+			x.defStrList("poolUnlockedAccesses", unlocked)
+			x.defStrList("poolWritesUnderReadLock", writesUnderR)
+			x.defStrList("poolLockScopeKinds", scopeKinds)
+			x.defNat("poolAccessorCount", uint64(accessors))
+		}
 		if fd := x.funcDecl(dir, "", "hasTarget"); fd != nil {
 			w := newC16Walk(x, dir)
 			w.root(fd)
@@ -224,6 +271,219 @@ func init() {
 		}
 		return nil
 	})
+}
+
+var c16statusCode = regexp.MustCompile(`^status\.Errorf?\(codes\.([A-Za-z]+)`)
+
+// c16locks: lock discipline of the connection pool, read off every function of the package that touches the
+// pool's connection map (the struct field of a map type whose struct also holds a sync.RWMutex). Statements are
+// walked in source order with the lock currently held (""/R/W; `defer …Unlock()` keeps it to the end; the body
+// of a function literal — a goroutine or a deferred closure — starts without a lock). Reported: reads of the
+// map without any lock, writes (index assignment, delete) without the write lock, and per function the kinds of
+// its lock acquisitions in order.
+func c16locks(x *X, dir string) (unlocked, writesUnderR, scopeKinds []string, accessors int) {
+	mapField, muField := "", ""
+	for _, f := range x.files(dir) {
+		ast.Inspect(f, func(n ast.Node) bool {
+			st, ok := n.(*ast.StructType)
+			if !ok || st.Fields == nil {
+				return true
+			}
+			m, mu := "", ""
+			for _, fl := range st.Fields.List {
+				if len(fl.Names) != 1 {
+					continue
+				}
+				if mt, ok := fl.Type.(*ast.MapType); ok && strings.Contains(x.src(mt.Value), "ClientConn") {
+					m = fl.Names[0].Name
+				}
+				if t := x.src(fl.Type); t == "sync.RWMutex" || t == "*sync.RWMutex" {
+					mu = fl.Names[0].Name
+				}
+			}
+			if m != "" && mu != "" {
+				mapField, muField = m, mu
+			}
+			return true
+		})
+	}
+	if mapField == "" {
+		x.fail("connection pool: no struct with a map of client connections and a sync.RWMutex")
+		return
+	}
+	isMap := func(e ast.Expr) bool {
+		se, ok := e.(*ast.SelectorExpr)
+		return ok && se.Sel.Name == mapField
+	}
+	lockCall := func(e ast.Expr) string {
+		c, ok := e.(*ast.CallExpr)
+		if !ok {
+			return ""
+		}
+		se, ok := c.Fun.(*ast.SelectorExpr)
+		if !ok {
+			return ""
+		}
+		in, ok := se.X.(*ast.SelectorExpr)
+		if !ok || in.Sel.Name != muField {
+			return ""
+		}
+		return se.Sel.Name
+	}
+	for _, f := range x.files(dir) {
+		for _, d := range f.Decls {
+			fd, ok := d.(*ast.FuncDecl)
+			if !ok || fd.Body == nil {
+				continue
+			}
+			touches := false
+			ast.Inspect(fd.Body, func(n ast.Node) bool {
+				if e, ok := n.(ast.Expr); ok && isMap(e) {
+					touches = true
+				}
+				return true
+			})
+			if !touches {
+				continue
+			}
+			accessors++
+			name := fd.Name.Name
+			kinds := ""
+			var walk func(s ast.Stmt, held *string)
+			var scan func(n ast.Node, held string, lhs bool)
+			scan = func(n ast.Node, held string, lhs bool) {
+				if n == nil {
+					return
+				}
+				ast.Inspect(n, func(m ast.Node) bool {
+					switch v := m.(type) {
+					case *ast.FuncLit:
+						h := ""
+						for _, st := range v.Body.List {
+							walk(st, &h)
+						}
+						return false
+					case *ast.CallExpr:
+						if id, ok := v.Fun.(*ast.Ident); ok && id.Name == "delete" && len(v.Args) == 2 && isMap(v.Args[0]) {
+							if held == "" {
+								unlocked = append(unlocked, name+": delete without a lock")
+							} else if held == "R" {
+								writesUnderR = append(writesUnderR, name+": delete under the read lock")
+							}
+							scan(v.Args[1], held, false)
+							return false
+						}
+					case *ast.SelectorExpr:
+						if isMap(v) {
+							if lhs {
+								if held == "" {
+									unlocked = append(unlocked, name+": store without a lock")
+								} else if held == "R" {
+									writesUnderR = append(writesUnderR, name+": store under the read lock")
+								}
+							} else if held == "" {
+								unlocked = append(unlocked, name+": read without a lock")
+							}
+							return false
+						}
+					}
+					return true
+				})
+			}
+			var block func(b *ast.BlockStmt, held *string)
+			block = func(b *ast.BlockStmt, held *string) {
+				if b == nil {
+					return
+				}
+				for _, st := range b.List {
+					walk(st, held)
+				}
+			}
+			walk = func(s ast.Stmt, held *string) {
+				switch v := s.(type) {
+				case *ast.ExprStmt:
+					switch lockCall(v.X) {
+					case "Lock":
+						*held = "W"
+						kinds += "W"
+					case "RLock":
+						*held = "R"
+						kinds += "R"
+					case "Unlock", "RUnlock":
+						*held = ""
+					default:
+						scan(v.X, *held, false)
+					}
+				case *ast.DeferStmt:
+					if k := lockCall(v.Call); k == "Unlock" || k == "RUnlock" {
+						return // held to the end of the function
+					}
+					scan(v.Call, *held, false)
+				case *ast.GoStmt:
+					scan(v.Call, *held, false)
+				case *ast.AssignStmt:
+					for _, l := range v.Lhs {
+						if ie, ok := l.(*ast.IndexExpr); ok && isMap(ie.X) {
+							scan(ie.X, *held, true)
+							scan(ie.Index, *held, false)
+						} else {
+							scan(l, *held, false)
+						}
+					}
+					for _, r := range v.Rhs {
+						scan(r, *held, false)
+					}
+				case *ast.BlockStmt:
+					block(v, held)
+				case *ast.IfStmt:
+					if v.Init != nil {
+						walk(v.Init, held)
+					}
+					scan(v.Cond, *held, false)
+					block(v.Body, held)
+					if v.Else != nil {
+						walk(v.Else, held)
+					}
+				case *ast.ForStmt:
+					if v.Init != nil {
+						walk(v.Init, held)
+					}
+					scan(v.Cond, *held, false)
+					block(v.Body, held)
+					if v.Post != nil {
+						walk(v.Post, held)
+					}
+				case *ast.RangeStmt:
+					scan(v.X, *held, false)
+					block(v.Body, held)
+				case *ast.SwitchStmt:
+					if v.Init != nil {
+						walk(v.Init, held)
+					}
+					scan(v.Tag, *held, false)
+					for _, c := range v.Body.List {
+						cc := c.(*ast.CaseClause)
+						for _, e := range cc.List {
+							scan(e, *held, false)
+						}
+						for _, st := range cc.Body {
+							walk(st, held)
+						}
+					}
+				case *ast.LabeledStmt:
+					walk(v.Stmt, held)
+				case nil:
+				default:
+					scan(s, *held, false)
+				}
+			}
+			h := ""
+			block(fd.Body, &h)
+			scopeKinds = append(scopeKinds, kinds)
+		}
+	}
+	sort.Strings(scopeKinds)
+	return
 }
 
 func isLogCall(c string) bool {
